@@ -299,8 +299,10 @@ namespace Givaro {
         if (a<0 && r) {
             // :GMPUintTDiv
             subin(q,(int64_t)1) ;
-            r = b - r ;
+            r = std::abs(b) - r ;
         }
+        // the division above is by |b|: a = |b| q + r  =  b (-q) + r
+        if (b<0) negin(q);
 
         return q;
 #endif
